@@ -475,7 +475,12 @@ class Canon:
                 call, mode = st.value, "aug"
             h = self.helper(f, call) if call is not None else None
             if h is None:
-                out.append(self._inline_exprs(f, st, depth))
+                st = self._inline_exprs(f, st, depth)
+                hoisted = self._hoist_arg(f, st) if mode in ("expr", "assign", "return") else None
+                if hoisted is not None:
+                    out.extend(self._inline_block(f, hoisted, depth))
+                else:
+                    out.append(st)
                 continue
             hnode, ren = self._prepared(h, depth)
             binds = self._bind(h, hnode, ren, call)
@@ -486,6 +491,33 @@ class Canon:
             self._inlined[id(h)] = self._inlined.get(id(h), 0) + (1 if depth == 0 else 0)
             out.extend(binds + new)
         return out
+
+    def _hoist_arg(self, f, st):
+        """`g(self._helper(..), b)` -> `_arg__helper = self._helper(..); g(_arg__helper, b)` when the helper is one that is written out and nothing with an effect is evaluated
+        before it (the helper call then is a statement of its own and the ordinary rule applies)"""
+        outer = st.value
+        if not (isinstance(outer, ast.Call) and _is_pure(outer.func)):
+            return None
+        slots = [(outer.args, i) for i in range(len(outer.args))] + [(k, None) for k in outer.keywords]
+        for holder, i in slots:
+            a = holder[i] if i is not None else holder.value
+            if isinstance(a, ast.Call) and self.helper(f, a) is not None and not isinstance(a, ast.Starred):
+                h = self.helper(f, a)
+                if not _returns_in_tail(_Blocks().block(_strip_doc(copy.deepcopy(h.node).body), "func")):
+                    return None
+                self._k["arg " + h.name] = self._k.get("arg " + h.name, 0) + 1
+                k = self._k["arg " + h.name]
+                name = "_arg__%s%s" % (h.name.lstrip("_"), "" if k == 1 else "_%d" % k)
+                tmp = ast.copy_location(ast.Assign(targets=[ast.Name(id=name, ctx=ast.Store())], value=a, lineno=st.lineno), st)
+                ref = ast.copy_location(ast.Name(id=name, ctx=ast.Load()), a)
+                if i is not None:
+                    holder[i] = ref
+                else:
+                    holder.value = ref
+                return [tmp, st]
+            if isinstance(a, ast.Starred) or (i is None and holder.arg is None) or not _is_pure(a):
+                return None
+        return None
 
     def _inline_nested(self, f, st, depth):
         """recurse into compound statements"""
